@@ -76,10 +76,10 @@ func init() {
 			}
 			for _, m := range sys.Cl.Live() {
 				t := m.DB.VerifRT().VerifTable()
-				p := sys.Cl.PartID("d", sys.Keys[0])
+				p := sys.Cl.PartID("d", sys.Keys[len(sys.Keys)-1])
 				fmt.Printf("    %s boot=%v part%d owners=%s backups=%s pending=%d\n", m.Name, m.DB.VerifRT().IsBootstrapped(), p, namesOf(t[p].Owners), namesOf(t[p].Backups), sys.Cl.Pending(m))
 			}
-			for _, k := range sys.Keys[:1] {
+			for _, k := range sys.Keys {
 				for _, cp := range sys.Cl.Copies("d", k) {
 					fmt.Printf("    copy %s: %s %s part=%d val=%q\n", k, cp.Member, cp.Kind, cp.PartID, cp.Value)
 				}
